@@ -41,9 +41,8 @@ def lbl(cfg, nc):
 
 
 def replay(result, workdir, seed):
-    return False, 'native replay for this family is not built yet'
+    return ppoly_replay('C03', result, workdir, seed)
 
 
 def replay_file(path):
-    print('replay of', path, 'not built yet')
-    return 2
+    return generic_replay_file(path)
